@@ -73,8 +73,8 @@ theorem process_stagnant (s : Filter ℝ) (h : s.Stagnant) (xs : List (Frame ℝ
          (runTick (tickV s dt) (s.ic1eq, s.ic2eq) xs).2) := by
   obtain ⟨hc, hr, hm⟩ := h
   unfold process
-  simp only [Parameter.settle tw64 s.cutoff _ info hc, Parameter.settle tw64 s.resonance _ info hr,
-    Parameter.settle tw32 s.mix _ info hm]
+  simp only [Parameter.settleA tw64 s.cutoff _ info hc, Parameter.settleA tw64 s.resonance _ info hr,
+    Parameter.settleA tw32 s.mix _ info hm]
   have hinj : ({ s with
       cutoff := { s.cutoff with prev := s.cutoff.raw }
       resonance := { s.resonance with prev := s.resonance.raw }
